@@ -153,7 +153,16 @@ class Builder(NullCell):
         i = self.available_bytes
         if len(value) <= i:
             return self.store_bytes(value)
-        return self.store_bytes(value[:i]).store_ref(Builder().store_snake_bytes(value[i:]).end_cell())
+        # the continuation is a chain of cells of 127 bytes each; it is built from its last cell backwards,
+        # so that a chain as long as the depth limit allows (1023 cells) does not exhaust the interpreter stack
+        self.store_bytes(value[:i])
+        tail = None
+        for start in reversed(range(i, len(value), 127)):
+            cell = Builder().store_bytes(value[start:start + 127])
+            if tail is not None:
+                cell.store_ref(tail)
+            tail = cell.end_cell()
+        return self.store_ref(tail)
 
     def store_snake_string(self, value: str, need_prefix: bool = False):
         value = value.encode()
